@@ -140,5 +140,49 @@ have sp : prior_ok (pbelief p) by move/List.Forall_forall: Hspd; apply.
 exact: (@kf_one_is_info_posterior F tr sq eg n m H R y spdR (pbelief p) sp).
 Qed.
 
+(* the corrected covariance of the Kalman step is SPD (inverse of the SPD information
+   matrix): the guard of the Mahalanobis identity is derived *)
+Lemma kf_corrected_spd (c : gcomp O n) :
+  spd (gcov c : 'M[F]_n) -> spd (gcov (ko_comp (kf_correct_one H R y c)) : 'M[F]_n).
+Proof.
+move=> sP; rewrite (@kf_one_cov F tr sq eg n m H R y spdR c sP).
+apply: spd_inv; rewrite addrC; apply: psd_spd_add; last exact: spd_inv.
+have -> : H^T *m invmx R *m H = H^T *m invmx R *m (H^T)^T by rewrite trmxK.
+by apply: psd_congr; apply: spd_psd; exact: spd_inv.
+Qed.
+
+Lemma kf_belief_at (i : nat) :
+  length old = length pred -> (i < length pred)%coq_nat ->
+  belief_at (kf_corr_gstep true H R y (gm_of pred) (gm_of old)) i =
+  ko_comp (kf_correct_one H R y (pbelief (List.nth i pred (dparticle O n)))).
+Proof.
+move=> Hl Hi.
+rewrite belief_at_nth kf_corr_gstep_beliefs ?gm_of_length //.
+rewrite /gm_of !List.map_map /=.
+set f := fun p : particle O n => ko_comp (kf_correct_one H R y (pbelief p)).
+rewrite (List.nth_indep _ (dgcomp O n) (f (dparticle O n))) ?List.map_length //.
+by rewrite (List.map_nth f).
+Qed.
+
+Lemma kf_wrapped_mahalanobis (i : nat) d :
+  fst (lik (gpf_drawn (kf_corr_gstep true H R y) zs pred old)) = true ->
+  length old = length pred ->
+  List.Forall (fun p : particle O n => spd (pcov p : 'M[F]_n)) pred ->
+  (i < length pred)%coq_nat ->
+  let p := List.nth i (cr_particles r) d in
+  msqrt_contract (pcov p) ->
+  spd (pcov p : 'M[F]_n) /\
+  quadform (O:=O) (msub (pstate p) (pmean p)) (minv (pcov p)) =
+  quadform (O:=O) (List.nth i zs (mzero n 1)) (mid n).
+Proof.
+move=> Hv Hl Hspd Hi.
+have sp : spd (pcov (List.nth i pred (dparticle O n)) : 'M[F]_n).
+  by move/List.Forall_forall: Hspd; apply; exact: List.nth_In.
+have sC := kf_corrected_spd (c:=pbelief (List.nth i pred (dparticle O n))) sp.
+rewrite /r (@correct_particle O n _ lik trans zs pred old Hv i d Hi) /= (kf_belief_at Hl Hi).
+move=> cP; split=> //.
+exact: mahalanobis.
+Qed.
+
 End WithKF.
 End Model.
